@@ -1,12 +1,268 @@
 package main
 
 // M1 — Pebble as a sorted byte-string map with batches, snapshots, iterators.
+//
+// State: a strictly ascending list of (key, value) with keys and values of
+// concrete length and symbolic content. Where an operation's effect depends
+// on the order of symbolic keys (position of an insert, of a bound, a point
+// lookup) the model makes an n-way decision over the possible positions, so
+// every order relation between the operation's key and the stored keys is
+// explored, each with the full content still symbolic.
 
 import (
+	"fmt"
 	"go/types"
 )
 
 const pebblePkg = "github.com/cockroachdb/pebble"
+
+type pEntry struct {
+	k []*Term
+	v Value // []Value (cells) or *Blob
+}
+
+type pOp struct {
+	kind   int // 0 set, 1 delete, 2 deleteRange
+	k, end []*Term
+	v      Value
+}
+
+type pDB struct {
+	ents     []pEntry
+	closed   bool
+	dir      string
+	gen      int // bumped on every commit
+	flushed  []pEntry
+	commits  int
+	batchLog []string
+}
+
+type pBatch struct {
+	db        *pDB
+	indexed   bool
+	ops       []pOp
+	closed    bool
+	committed bool
+	viewGen   int
+	viewOps   int
+	view      []pEntry
+	hasView   bool
+}
+
+type pSnapshot struct {
+	db     *pDB
+	ents   []pEntry
+	closed bool
+}
+
+type pIter struct {
+	ents   []pEntry
+	pos    int
+	closed bool
+	bad    bool
+	owner  *pDB
+}
+
+func (p *Path) pebbleType(name string) types.Type {
+	return types.NewPointer(p.eng.namedType(pebblePkg, name))
+}
+
+func (p *Path) newPObj(kind string, data interface{}) *NativeObj {
+	return &NativeObj{Kind: kind, T: p.pebbleType(kind), Data: data}
+}
+
+func pData[T any](p *Path, v Value, what string) T {
+	no, ok := v.(*NativeObj)
+	if !ok || no == nil {
+		if isNilPtr(v) {
+			p.goPanicRuntime("invalid memory address or nil pointer dereference (nil " + what + ")")
+		}
+		panic(unsupported{fmt.Sprintf("%s: receiver is %T", what, v)})
+	}
+	d, ok := no.Data.(T)
+	if !ok {
+		panic(engineError{fmt.Sprintf("%s: wrong model object %T", what, no.Data)})
+	}
+	return d
+}
+
+func (p *Path) pebblePanicClosed() {
+	p.goPanic(p.sentinelError(pebblePkg + ".ErrClosed"))
+}
+
+// keyTerms converts a key argument to terms (copy).
+func (p *Path) keyTerms(v Value) []*Term {
+	if _, ok := v.(*Blob); ok {
+		panic(unsupported{"blob used as a Pebble key"})
+	}
+	return p.sliceTerms(v)
+}
+
+func (p *Path) valCopy(v Value) Value {
+	switch x := v.(type) {
+	case *Blob:
+		return x
+	case []Value:
+		return p.termsToSlice(p.sliceTerms(x))
+	}
+	if isNilPtr(v) {
+		return []Value{}
+	}
+	panic(unsupported{fmt.Sprintf("Pebble value of %T", v)})
+}
+
+// pLocate returns the index of the first entry with key >= k and whether that
+// entry's key equals k. One decision over all 2n+1 possibilities.
+func (p *Path) pLocate(ents []pEntry, k []*Term) (int, bool) {
+	n := len(ents)
+	if n == 0 {
+		return 0, false
+	}
+	c := p.ctx
+	less := make([]*Term, n) // ents[j].k < k
+	eq := make([]*Term, n)
+	for j := 0; j < n; j++ {
+		less[j] = p.bytesLess(ents[j].k, k)
+		eq[j] = p.bytesEq(ents[j].k, k)
+	}
+	opts := make([]*Term, 0, 2*n+1)
+	for j := 0; j <= n; j++ {
+		// gap j: ents[j-1] < k < ents[j]
+		g := c.T
+		if j > 0 {
+			g = less[j-1]
+		}
+		if j < n {
+			g = c.And(g, c.And(c.Not(less[j]), c.Not(eq[j])))
+		}
+		opts = append(opts, g)
+	}
+	for j := 0; j < n; j++ {
+		opts = append(opts, eq[j])
+	}
+	pick := p.choose("pos", opts)
+	pos, found := pick, false
+	if pick > n {
+		pos, found = pick-n-1, true
+	}
+	// facts implied by the choice (entries are strictly ascending): the full
+	// order relation between k and every entry, in both argument orders
+	for j := 0; j < n; j++ {
+		var rel int // -1: ents[j] < k, 0: equal, 1: ents[j] > k
+		switch {
+		case found && j == pos:
+			rel = 0
+		case j < pos:
+			rel = -1
+		default:
+			rel = 1
+		}
+		p.learn(less[j], rel == -1)
+		p.learn(eq[j], rel == 0)
+		p.learn(p.bytesLess(k, ents[j].k), rel == 1)
+		p.learn(p.bytesEq(k, ents[j].k), rel == 0)
+	}
+	return pos, found
+}
+
+func applyOp(p *Path, ents []pEntry, op pOp) []pEntry {
+	switch op.kind {
+	case 0:
+		i, found := p.pLocate(ents, op.k)
+		out := make([]pEntry, 0, len(ents)+1)
+		out = append(out, ents[:i]...)
+		out = append(out, pEntry{op.k, op.v})
+		if found {
+			out = append(out, ents[i+1:]...)
+		} else {
+			out = append(out, ents[i:]...)
+		}
+		return out
+	case 1:
+		i, found := p.pLocate(ents, op.k)
+		if !found {
+			return ents
+		}
+		out := make([]pEntry, 0, len(ents))
+		out = append(out, ents[:i]...)
+		out = append(out, ents[i+1:]...)
+		return out
+	default:
+		i, _ := p.pLocate(ents, op.k)
+		j, _ := p.pLocate(ents, op.end)
+		if i >= j {
+			return ents // empty or inverted span: Pebble's fragmenter drops it
+		}
+		out := make([]pEntry, 0, len(ents))
+		out = append(out, ents[:i]...)
+		out = append(out, ents[j:]...)
+		return out
+	}
+}
+
+func (b *pBatch) currentView(p *Path) []pEntry {
+	if b.hasView && b.viewGen == b.db.gen && b.viewOps <= len(b.ops) {
+		// extend incrementally
+		for _, op := range b.ops[b.viewOps:] {
+			b.view = applyOp(p, b.view, op)
+		}
+		b.viewOps = len(b.ops)
+		return b.view
+	}
+	v := b.db.ents
+	for _, op := range b.ops {
+		v = applyOp(p, v, op)
+	}
+	b.view, b.viewGen, b.viewOps, b.hasView = v, b.db.gen, len(b.ops), true
+	return v
+}
+
+func (p *Path) structField(v Value, t types.Type, name string) Value {
+	st := t.Underlying().(*types.Struct)
+	s := v.(Struct)
+	for i := 0; i < st.NumFields(); i++ {
+		if st.Field(i).Name() == name {
+			return s[i]
+		}
+	}
+	panic(engineError{"no field " + name + " in " + t.String()})
+}
+
+// newIter builds an iterator over ents restricted to the bounds in opts.
+func (p *Path) newIter(ents []pEntry, opts Value, owner *pDB) Value {
+	it := &pIter{ents: ents, pos: -1, owner: owner}
+	if op, ok := opts.(*Value); ok && op != nil && *op != nil {
+		ot := p.eng.namedType(pebblePkg, "IterOptions")
+		lo := p.structField(*op, ot, "LowerBound")
+		hi := p.structField(*op, ot, "UpperBound")
+		i, j := 0, len(ents)
+		if s, ok := lo.([]Value); ok && s != nil {
+			i, _ = p.pLocate(ents, p.keyTerms(s))
+		}
+		if s, ok := hi.([]Value); ok && s != nil {
+			j, _ = p.pLocate(ents, p.keyTerms(s))
+		}
+		if i > j {
+			i = j
+		}
+		it.ents = ents[i:j]
+	}
+	return p.newPObj("Iterator", it)
+}
+
+func (p *Path) getFrom(ents []pEntry, key Value) Value {
+	k := p.keyTerms(key)
+	i, found := p.pLocate(ents, k)
+	if !found {
+		return Tuple{[]Value(nil), Iface{}, p.sentinelError(pebblePkg + ".ErrNotFound")}
+	}
+	v := ents[i].v
+	if s, ok := v.([]Value); ok {
+		v = p.termsToSlice(p.sliceTerms(s))
+	}
+	closerT := p.eng.namedType("io", "nopCloser")
+	return Tuple{v, Iface{T: closerT, V: Struct{Iface{}}}, Iface{}}
+}
 
 func init() {
 	globalModels[pebblePkg+".DefaultComparer"] = func(p *Path, t types.Type) Value {
@@ -31,10 +287,288 @@ func init() {
 		*cell = s
 		return cell
 	}
+	for _, n := range []string{"NoSync", "Sync"} {
+		n := n
+		globalModels[pebblePkg+"."+n] = func(p *Path, t types.Type) Value { return &Opaque{Tag: "pebble." + n} }
+	}
 	regNoop("(*" + pebblePkg + ".LevelOptions).EnsureDefaults")
 
 	reg(verifPkg+".SameFunc", func(p *Path, _ *frame, a []Value) Value {
 		x, y := a[0].(Iface).V, a[1].(Iface).V
 		return p.ctx.Bool(x == y)
 	})
+
+	P := "(*" + pebblePkg + "."
+	reg(pebblePkg+".Open", func(p *Path, _ *frame, a []Value) Value {
+		dir, _ := p.concreteString(a[0])
+		// the model is only valid for the bytewise comparer with whole-key Split
+		if op, ok := a[1].(*Value); ok && op != nil {
+			ot := p.eng.namedType(pebblePkg, "Options")
+			cmp := p.structField(*op, ot, "Comparer")
+			if cp, ok := cmp.(*Value); ok && cp != nil {
+				ct := p.eng.namedType(pebblePkg, "Comparer")
+				cf := p.structField(*cp, ct, "Compare")
+				if nf, ok := cf.(*NativeFunc); !ok || nf.Name != "pebble.DefaultComparer.Compare" {
+					panic(unsupported{"pebble.Open with a non-default comparer: the Pebble model does not apply"})
+				}
+				sf := p.structField(*cp, ct, "Split")
+				if fn, ok := sf.(interface{ String() string }); !ok || fn.String() != regattaMod+"/pebble.split" {
+					panic(unsupported{"pebble.Open: Split is not regatta's whole-key split"})
+				}
+			}
+			if fsv := p.structField(*op, ot, "FS"); !isNilPtr(fsv) {
+				if db := p.fsOpenPebble(fsv, dir); db != nil {
+					return Tuple{p.newPObj("DB", db), Iface{}}
+				}
+			}
+		}
+		return Tuple{p.newPObj("DB", &pDB{dir: dir}), Iface{}}
+	})
+	reg(P+"DB).NewBatch", func(p *Path, _ *frame, a []Value) Value {
+		db := pData[*pDB](p, a[0], "DB.NewBatch")
+		if db.closed {
+			p.pebblePanicClosed()
+		}
+		return p.newPObj("Batch", &pBatch{db: db})
+	})
+	reg(P+"DB).NewIndexedBatch", func(p *Path, _ *frame, a []Value) Value {
+		db := pData[*pDB](p, a[0], "DB.NewIndexedBatch")
+		if db.closed {
+			p.pebblePanicClosed()
+		}
+		return p.newPObj("Batch", &pBatch{db: db, indexed: true})
+	})
+	reg(P+"DB).NewSnapshot", func(p *Path, _ *frame, a []Value) Value {
+		db := pData[*pDB](p, a[0], "DB.NewSnapshot")
+		if db.closed {
+			p.pebblePanicClosed()
+		}
+		return p.newPObj("Snapshot", &pSnapshot{db: db, ents: db.ents})
+	})
+	reg(P+"DB).NewIter", func(p *Path, _ *frame, a []Value) Value {
+		db := pData[*pDB](p, a[0], "DB.NewIter")
+		if db.closed {
+			p.pebblePanicClosed()
+		}
+		return p.newIter(db.ents, a[1], db)
+	})
+	reg(P+"DB).Get", func(p *Path, _ *frame, a []Value) Value {
+		db := pData[*pDB](p, a[0], "DB.Get")
+		if db.closed {
+			p.pebblePanicClosed()
+		}
+		return p.getFrom(db.ents, a[1])
+	})
+	reg(P+"DB).Set", func(p *Path, _ *frame, a []Value) Value {
+		db := pData[*pDB](p, a[0], "DB.Set")
+		if db.closed {
+			p.pebblePanicClosed()
+		}
+		db.ents = applyOp(p, db.ents, pOp{kind: 0, k: p.keyTerms(a[1]), v: p.valCopy(a[2])})
+		db.gen++
+		return Iface{}
+	})
+	reg(P+"DB).Delete", func(p *Path, _ *frame, a []Value) Value {
+		db := pData[*pDB](p, a[0], "DB.Delete")
+		if db.closed {
+			p.pebblePanicClosed()
+		}
+		db.ents = applyOp(p, db.ents, pOp{kind: 1, k: p.keyTerms(a[1])})
+		db.gen++
+		return Iface{}
+	})
+	reg(P+"DB).Flush", func(p *Path, _ *frame, a []Value) Value {
+		db := pData[*pDB](p, a[0], "DB.Flush")
+		if db.closed {
+			p.pebblePanicClosed()
+		}
+		db.flushed = db.ents
+		p.fsPebbleFlushed(db)
+		return Iface{}
+	})
+	reg(P+"DB).Close", func(p *Path, _ *frame, a []Value) Value {
+		db := pData[*pDB](p, a[0], "DB.Close")
+		if db.closed {
+			p.pebblePanicClosed()
+		}
+		db.closed = true
+		return Iface{}
+	})
+	reg(P+"DB).Metrics", func(p *Path, _ *frame, a []Value) Value { return (*Value)(nil) })
+
+	reg(P+"Batch).Indexed", func(p *Path, _ *frame, a []Value) Value {
+		return p.ctx.Bool(pData[*pBatch](p, a[0], "Batch.Indexed").indexed)
+	})
+	batchWrite := func(kind int) intrinsic {
+		return func(p *Path, _ *frame, a []Value) Value {
+			b := pData[*pBatch](p, a[0], "Batch write")
+			if b.closed || b.committed {
+				p.goPanic(p.newError("pebble: batch already committing/closed"))
+			}
+			op := pOp{kind: kind, k: p.keyTerms(a[1])}
+			switch kind {
+			case 0:
+				op.v = p.valCopy(a[2])
+			case 2:
+				op.end = p.keyTerms(a[2])
+			}
+			b.ops = append(b.ops, op)
+			return Iface{}
+		}
+	}
+	reg(P+"Batch).Set", batchWrite(0))
+	reg(P+"Batch).Delete", batchWrite(1))
+	reg(P+"Batch).DeleteRange", batchWrite(2))
+	reg(P+"Batch).Apply", func(p *Path, _ *frame, a []Value) Value {
+		b := pData[*pBatch](p, a[0], "Batch.Apply")
+		src := pData[*pBatch](p, a[1], "Batch.Apply src")
+		b.ops = append(b.ops, src.ops...)
+		return Iface{}
+	})
+	reg(P+"Batch).Commit", func(p *Path, _ *frame, a []Value) Value {
+		b := pData[*pBatch](p, a[0], "Batch.Commit")
+		if b.db.closed {
+			p.pebblePanicClosed()
+		}
+		if b.committed {
+			p.goPanic(p.newError("pebble: batch already committing"))
+		}
+		b.db.ents = b.currentView(p)
+		b.db.gen++
+		b.db.commits++
+		b.committed = true
+		return Iface{}
+	})
+	reg(P+"Batch).Close", func(p *Path, _ *frame, a []Value) Value {
+		b := pData[*pBatch](p, a[0], "Batch.Close")
+		b.closed = true
+		return Iface{}
+	})
+	reg(P+"Batch).Empty", func(p *Path, _ *frame, a []Value) Value {
+		return p.ctx.Bool(len(pData[*pBatch](p, a[0], "Batch.Empty").ops) == 0)
+	})
+	reg(P+"Batch).Count", func(p *Path, _ *frame, a []Value) Value {
+		return p.ctx.BV(uint64(len(pData[*pBatch](p, a[0], "Batch.Count").ops)), 32)
+	})
+	reg(P+"Batch).Get", func(p *Path, _ *frame, a []Value) Value {
+		b := pData[*pBatch](p, a[0], "Batch.Get")
+		if !b.indexed {
+			return Tuple{[]Value(nil), Iface{}, p.sentinelError(pebblePkg + ".ErrNotIndexed")}
+		}
+		if b.db.closed {
+			p.pebblePanicClosed()
+		}
+		return p.getFrom(b.currentView(p), a[1])
+	})
+	reg(P+"Batch).NewIter", func(p *Path, _ *frame, a []Value) Value {
+		b := pData[*pBatch](p, a[0], "Batch.NewIter")
+		if !b.indexed {
+			return p.newPObj("Iterator", &pIter{bad: true, pos: -1})
+		}
+		if b.db.closed {
+			p.pebblePanicClosed()
+		}
+		return p.newIter(b.currentView(p), a[1], b.db)
+	})
+
+	reg(P+"Snapshot).NewIter", func(p *Path, _ *frame, a []Value) Value {
+		s := pData[*pSnapshot](p, a[0], "Snapshot.NewIter")
+		if s.closed || s.db.closed {
+			p.pebblePanicClosed()
+		}
+		return p.newIter(s.ents, a[1], s.db)
+	})
+	reg(P+"Snapshot).Get", func(p *Path, _ *frame, a []Value) Value {
+		s := pData[*pSnapshot](p, a[0], "Snapshot.Get")
+		if s.closed || s.db.closed {
+			p.pebblePanicClosed()
+		}
+		return p.getFrom(s.ents, a[1])
+	})
+	reg(P+"Snapshot).Close", func(p *Path, _ *frame, a []Value) Value {
+		s := pData[*pSnapshot](p, a[0], "Snapshot.Close")
+		if s.closed {
+			p.pebblePanicClosed()
+		}
+		s.closed = true
+		return Iface{}
+	})
+
+	itValid := func(it *pIter) bool { return !it.bad && !it.closed && it.pos >= 0 && it.pos < len(it.ents) }
+	reg(P+"Iterator).First", func(p *Path, _ *frame, a []Value) Value {
+		it := pData[*pIter](p, a[0], "Iterator.First")
+		it.pos = 0
+		return p.ctx.Bool(itValid(it))
+	})
+	reg(P+"Iterator).Next", func(p *Path, _ *frame, a []Value) Value {
+		it := pData[*pIter](p, a[0], "Iterator.Next")
+		if it.pos < len(it.ents) {
+			it.pos++
+		}
+		return p.ctx.Bool(itValid(it))
+	})
+	reg(P+"Iterator).Valid", func(p *Path, _ *frame, a []Value) Value {
+		return p.ctx.Bool(itValid(pData[*pIter](p, a[0], "Iterator.Valid")))
+	})
+	reg(P+"Iterator).Key", func(p *Path, _ *frame, a []Value) Value {
+		it := pData[*pIter](p, a[0], "Iterator.Key")
+		if !itValid(it) {
+			return []Value(nil)
+		}
+		return p.termsToSlice(it.ents[it.pos].k)
+	})
+	reg(P+"Iterator).Value", func(p *Path, _ *frame, a []Value) Value {
+		it := pData[*pIter](p, a[0], "Iterator.Value")
+		if !itValid(it) {
+			return []Value(nil)
+		}
+		v := it.ents[it.pos].v
+		if s, ok := v.([]Value); ok {
+			return p.termsToSlice(p.sliceTerms(s))
+		}
+		return v
+	})
+	reg(P+"Iterator).SeekPrefixGE", func(p *Path, _ *frame, a []Value) Value {
+		it := pData[*pIter](p, a[0], "Iterator.SeekPrefixGE")
+		if it.bad || it.closed {
+			return p.ctx.F
+		}
+		// Split(key) == len(key): the prefix is the whole key, so the seek
+		// succeeds exactly when the key itself is present
+		i, found := p.pLocate(it.ents, p.keyTerms(a[1]))
+		if found {
+			it.pos = i
+		} else {
+			it.pos = len(it.ents)
+		}
+		return p.ctx.Bool(found)
+	})
+	reg(P+"Iterator).SeekGE", func(p *Path, _ *frame, a []Value) Value {
+		it := pData[*pIter](p, a[0], "Iterator.SeekGE")
+		if it.bad || it.closed {
+			return p.ctx.F
+		}
+		i, _ := p.pLocate(it.ents, p.keyTerms(a[1]))
+		it.pos = i
+		return p.ctx.Bool(itValid(it))
+	})
+	reg(P+"Iterator).Close", func(p *Path, _ *frame, a []Value) Value {
+		it := pData[*pIter](p, a[0], "Iterator.Close")
+		it.closed = true
+		if it.bad {
+			return p.sentinelError(pebblePkg + ".ErrNotIndexed")
+		}
+		return Iface{}
+	})
+	reg(P+"Iterator).Error", func(p *Path, _ *frame, a []Value) Value {
+		it := pData[*pIter](p, a[0], "Iterator.Error")
+		if it.bad {
+			return p.sentinelError(pebblePkg + ".ErrNotIndexed")
+		}
+		return Iface{}
+	})
 }
+
+// hooks of the crash-FS model (model_fs.go)
+func (p *Path) fsOpenPebble(fsv Value, dir string) *pDB { return nil }
+func (p *Path) fsPebbleFlushed(db *pDB)                {}
